@@ -6,7 +6,7 @@ import ast
 from typing import Optional
 
 from ..flow import implication, is_stale, path_condition
-from ..model import AnchorMissing, Func, bind_args, dotted, norm, walk_no_nested
+from ..model import AnchorMissing, Func, Undecided, bind_args, dotted, norm, walk_no_nested
 from ..report import Ctx
 from ..variants import Variant
 from .c03 import BEATS_REF, _ancestors, _neg, _score_thr_key, add_entry_func, pure_labelmap_method
@@ -41,8 +41,17 @@ def _cmp_key_between(form, a_keys: set[str], b_pred) -> Optional[tuple[str, bool
     return None
 
 
+def _run_rule(ctx, name, fn):
+    """a sub-rule that cannot be evaluated is recorded as undecided; the remaining rules still run"""
+    try:
+        return fn(ctx)
+    except (Undecided, AnchorMissing) as e:
+        ctx.undecided(name, None, None, f"{name}:analysis", f"{type(e).__name__}: {e}")
+        return 0
+
+
 def check(ctx: Ctx):
-    check_merge(ctx)
+    _run_rule(ctx, "check_merge", check_merge)
     # the scores the merge decisions compare are those of the pair's own arrays (R03.7)
     from . import c03
 
@@ -50,7 +59,7 @@ def check(ctx: Ctx):
     # "at least as good as its best single candidate": no candidate pair may be lost (R03.1, R09.1)
     from . import c09
 
-    c03.check_no_pruning(ctx)
+    _run_rule(ctx, "check_no_pruning", c03.check_no_pruning)
     c03._guarded(ctx, "R03.3", c03.check_beats)  # "meets the threshold" is the exact, inclusive comparison
     c03._guarded(ctx, "R03.1", c03.check_codec)
     c03._guarded(ctx, "R09.1", c09.check_codec_width)
